@@ -65,7 +65,7 @@ def run(ctx):
         r.check('guard-rows', len(bad) == 1 and len(good) == 1, site, built=[x.cond_strs() for x in rows], expected=[G, '!' + G], why='strictly below the minimum fails; exactly 4096 is accepted')
         if bad:
             r.eq('too-small-error', (bad[0].value_str(), bad[0].done),
-                 ('errors::FrameMaxTooSmallSnafu::fail(errors::FrameMaxTooSmallSnafu{min: amq_protocol::protocol::constants::FRAME_MIN_SIZE, requested: %s})' % fm, 'return'), site)
+                 ('Err(errors::Error::FrameMaxTooSmall{min: amq_protocol::protocol::constants::FRAME_MIN_SIZE, requested: %s})' % fm, 'return'), site)
         if good:
             r.check('tuneok-only-on-false-edge', good[0].value_str().startswith('Ok(amq_protocol::protocol::connection::TuneOk{'), site, built=good[0].value_str()[:80])
         fn = ctx.fn(fnp)
